@@ -59,7 +59,9 @@ Spaced(f, ch) == Text(f, ch, <<32, 10, 9>>)
 
 Chains == UNION {[1..n -> Links] : n \in 2..MaxLinks}
 \* two-level enumeration: the theorems are evaluated on the successor states, by the worker threads
-Init == chain \in Chains /\ flav \in Flavours /\ (flav \in {"fn", "xf"} => Len(chain) <= 2) /\ done = FALSE
+\* chains of four links: binary operators only, over variables (the other flavours and the postfix forms stay at three links)
+Init == chain \in Chains /\ flav \in Flavours /\ (flav \in {"fn", "xf"} => Len(chain) <= 2)
+        /\ (Len(chain) >= 4 => (flav = "var" /\ \A i \in 1..Len(chain) : chain[i] \in BinOps)) /\ done = FALSE
 Next == ~done /\ done' = TRUE /\ UNCHANGED <<chain, flav>>
 Spec == Init /\ [][Next]_vars
 
